@@ -204,6 +204,69 @@ def proto_suite(run, selftest=False):
         run.stages.append({"stage": "binding-selftest", "spec": "Trace_Proto", "corruptions_rejected": 1})
 
 
+LOOP_CONSTS = "CONSTANT Keys = {0}\n"
+
+
+def loop_mc(run):
+    """ExecLoop.tla (the core's own executor: run_all) against every environment within small bounds:
+    QuiescentAtDone -- when run_all returns no spawned future waits and no queued key names a task"""
+    cfg = ("SPECIFICATION MSpec\nCONSTANT Keys = {0, 1, 2}\nCONSTANT MaxPending = %d\nCONSTANT MaxQueue = %d\n"
+           "INVARIANT TypeOK\nPROPERTY QuiescentAtDone\nCHECK_DEADLOCK FALSE\n" % ((2, 3) if run.quick else (3, 4)))
+    lib.mc(run, "MC_Loop", cfg, {}, need_actions=("Begin", "Take", "ToReady", "Pop", "Polled", "Loop", "Done"),
+           label="MC_Loop[3 keys]")
+
+
+def loop_suite(run, selftest=False):
+    """impl -> spec: the run_all events the recorder logged while the repository's own tests ran (record_suite
+    must have run in this check), one case per executor, validated against ExecLoop.tla"""
+    raw = os.path.join(lib.WORK, "proto", f"{run.prop}.raw")
+    cases = os.path.join(lib.WORK, "proto", f"{run.prop}.xcases")
+    rc, summary = lib.sh(["python3", os.path.join(lib.ROOT, "gen", "xloop.py"), raw, cases], check=True)
+    info = json.loads(summary.strip().splitlines()[-1])
+    if info["executors"] == 0:
+        raise lib.ToolError("no executor events were recorded (are the hooks of /repo commit for ExecLoop there?)")
+    run.stages.append({"stage": "record[repository test suite, run_all]", "kind": "recording", **info})
+    lib.validate_simple(run, "Trace_Loop", cases, consts=LOOP_CONSTS, marker='"e":"xnew"',
+                        label="run_all[repository test suite]")
+    if selftest:
+        # binding self-test: an xdone that claims a future was still waiting must be rejected
+        lines = open(cases).read().splitlines()
+        i = next((k for k, l in enumerate(lines) if '"e":"xdone"' in l), None)
+        if i is None:
+            raise lib.ToolError("run_all self-test found nothing to corrupt")
+        d = json.loads(lines[i])
+        d["a"] += 1
+        lines[i] = json.dumps(d, separators=(",", ":"))
+        s = max(j for j in range(i + 1) if '"e":"xnew"' in lines[j])
+        e = next((j for j in range(i + 1, len(lines)) if '"e":"xnew"' in lines[j]), len(lines))
+        bad = run.path("loop.corrupt")
+        with open(bad, "w") as f:
+            f.write("\n".join(lines[s:e]) + "\n")
+        rc, o = lib.tlc("Trace_Loop", lib.SIMPLE_CFG.format(consts=LOOP_CONSTS), {"TRACE": bad}, dfs=True, tag="st")
+        if "REJECTED_AT" not in o:
+            raise lib.ToolError("Trace_Loop accepted a corrupted trace")
+        run.stages.append({"stage": "binding-selftest", "spec": "Trace_Loop", "corruptions_rejected": 1})
+
+
+def loop_harness(run, name, seed, n):
+    """the same validation of run_all on a random round of the harness under the executor-backed hosts
+    (Core with the command API and with the capability API, AppTester, the bincode bridge)"""
+    raw, cases = run.path(f"x_{name}.raw"), run.path(f"x_{name}.xcases")
+    if os.path.exists(raw):
+        os.remove(raw)
+    for hosts, fam, k in (("core,tester,bridge_bin", "mixed", n), ("core_legacy", "legacy", max(n // 2, 50))):
+        cp, tp = run.path(f"x_{name}_{fam}.cases"), run.path(f"x_{name}_{fam}.trace")
+        lib.gen_cases(cp, seed, k, hosts, fam, 2, 18, 8)
+        jp = tp + ".journal"
+        rc, out = lib.sh([lib.BIN, "run", cp, tp], timeout=1800, env={"VERIF_JOURNAL": jp, "CRUX_VERIF_TRACE": raw})
+        if rc != 0:
+            raise lib.ToolError("harness died while recording run_all events:\n" + out[-1500:])
+    rc, summary = lib.sh(["python3", os.path.join(lib.ROOT, "gen", "xloop.py"), raw, cases], check=True)
+    run.stages.append({"stage": f"record[harness {name}, run_all]", "kind": "recording",
+                       **json.loads(summary.strip().splitlines()[-1])})
+    lib.validate_simple(run, "Trace_Loop", cases, consts=LOOP_CONSTS, marker='"e":"xnew"', label=f"run_all[harness {name}]")
+
+
 def proto_harness(run, name, seed, n):
     """the same protocol validation on the executions of a random round of the harness (thousands of wakes,
     spawns, aborts and evictions per round)"""
@@ -333,6 +396,11 @@ def c01(run):
     regress_round(run, "core")
     # every settle ends with an empty ready queue: ExecProtocol.tla on the repository's own tests
     proto_suite(run)
+    # the core's own executor: run_all returns only when nothing runnable is left (ExecLoop.tla: every environment
+    # within small bounds, then the run_all events of the repository's own tests and of a harness round)
+    loop_mc(run)
+    loop_suite(run, selftest=True)
+    loop_harness(run, "core", run.seed + 11, 400 if q else 4000)
     report_known(run)
 
 
@@ -344,6 +412,8 @@ def c03(run):
     random_round(run, "events", run.seed, 1200 if q else 12000, ["core", "bridge_json"], "mixed", 2, 24,
                  selftest=True)
     regress_round(run, "command")
+    # events a task emitted are only applied once run_all has returned: run_all must not return early
+    loop_harness(run, "events", run.seed + 13, 300 if q else 3000)
     report_known(run)
 
 
